@@ -580,6 +580,9 @@ struct Round {
                 rt.frozen = false;
                 rt.freeze_tid = freeze_tid;
                 rt.freeze_at = freeze_at;
+                rt.freeze_armed = false;
+                rt.freeze_span = 0;
+                rt.freeze_happened = false;
                 rt.timeouts_fired = false;
                 int strat = force_strategy >= 0 ? force_strategy : static_cast<int>(r2.below(2));
                 rt.strategy = strat;
